@@ -167,3 +167,29 @@ PROPS["C10"] = dict(
 )
 LEVEL_TEXT["C10"] = "Exhaustive enumeration of (from,to,len) alignments (all triples for 8-bit words, where every relative bit alignment and every single/multi-word span combination occurs within a few hundred elements), widths, lengths and backends, each compared with the element-by-element definition and with a raw-word footprint check."
 TECHNIQUE["C10"] = "bounded-exhaustive enumeration of (from,to,len,width,word type,backend) against element-wise reference definitions"
+
+PROPS["C18"] = dict(
+    level="exploration",
+    engine="E1",
+    parts=[dict(bin="e1_sig_store")],
+    rule="case = (signature type, value type, bucket bits b, max shard bits m, shard bits s <= m, online/offline); inside each case ALL multisets of size <= 4 over 2^max(b,m) signature classes (class = top bits of the signature; two distinguishable signatures per class, so equal signatures also occur) are pushed; plus skewed sets (all in class 0, all in the last class, two classes x 3000, 2500 spread) incl. the production pair m=16; every (b,m,s) with s<=m is enumerated, fewer/equal/more shard bits than bucket bits all occur",
+    alphabet="S in {[u64;2],[u64;1]}; V in {u64,u8,EmptyVal}; b,m in 0..=3 (thorough 0..=4)",
+    bound={"quick": "b,m <= 3, multisets <= 4 ([u64;2],u64) and <= 3 (others)", "thorough": "b,m <= 4, all six (S,V) pairs"},
+    oracle="BTreeMap-style reference: shard j = pairs whose top s bits are j (s=0: one shard), multiset equality incl. values; shard_sizes() equals the lengths; len() equals the number pushed; iter() twice and into_iter() agree",
+    assumptions=STRICT + ["offline stores use temporary files under the system temp dir, removed by the store itself"],
+)
+LEVEL_TEXT["C18"] = "Exhaustive enumeration of all (bucket bits, max shard bits, shard bits) triples up to 3-4 bits x all small pushed multisets x both store implementations x signature and value types, compared with a reference sharding by the top bits."
+TECHNIQUE["C18"] = "bounded-exhaustive enumeration of configurations x pushed multisets against a reference sharding"
+
+PROPS["C20"] = dict(
+    level="exploration",
+    engine="E1",
+    parts=[dict(bin="e1_lenders")],
+    rule="case = (lender kind, Take(n) or none, input text); inside each case ALL histories of <= 3 rounds (consume c items, rewind), c in {0,1,L-1,L,L+1 (reads past the end)}, followed by a full pass; texts: ALL texts of <= 3 (thorough 4) lines over {\"\", a, bc, a 9000-byte line (> BufReader capacity)} x {LF, CRLF} x final terminator present/absent; one 4000-line ~300 KiB text for multi-block compressed streams; FromIntoIterator over ranges and Vec<String> of 0..=4 items; Take(n) for n in {0,1,L-1,L,L+1}; non-trivial = at least 2 items",
+    alphabet="LineLender over Cursor and over a real file, ZstdLineLender, GzipLineLender, FromIntoIterator, lender::Take of each",
+    bound={"quick": "texts of <= 3 lines, 3 rounds", "thorough": "texts of <= 4 lines, 3 rounds"},
+    oracle="after every history a full pass yields exactly the reference lines (split on LF, one CR before the LF removed, final unterminated line kept), each Ok; items consumed before a rewind are also compared",
+    assumptions=STRICT,
+)
+LEVEL_TEXT["C20"] = "Exhaustive enumeration of all small inputs x lender kinds x all consume/rewind histories up to three rounds, compared with the reference item sequence after every rewind."
+TECHNIQUE["C20"] = "bounded-exhaustive enumeration of inputs x operation histories (consume/rewind) against the first-pass reference"
